@@ -95,3 +95,38 @@ Example viterbi_typed_ex :
             viterbi_ptr_model bool_ops (fun x y => implb x y) r [] [] = Ok [1] /\
             (forall a b, Semiring.add bool_ops a b = if implb a b then b else a).
 Proof. vm_compute. eexists. repeat split; try reflexivity. intros [|] [|]; reflexivity. Qed.
+
+(** the failed-unification exit is reached by typed operands: one operand on the first summand of
+    [2 + 3], the other on the second: the supports are disjoint, unification fails (without a
+    warning), the result is the all-zero tensor *)
+Definition ex_e : stensor (R:=bool) :=
+  mkST (mkPT (fun idx => true) [(3%positive, 3)] [Sum 2 (Phys 3 3) 0] false) [1] false.
+Definition ex_c1 : stensor (R:=bool) :=
+  mkST (mkPT (fun idx => true) [(1%positive, 2)] [Sum 0 (Phys 1 2) 3] false) [1] false.
+Definition ex_G3 : ctx := fun k =>
+  match k with
+  | 1%positive => [TAtom 2]
+  | 3%positive => [TAtom 3]
+  | _ => []
+  end.
+
+Example typed_operands_failed_ex :
+  typed_operands ex_lty2 ex_G3 10 [ex_c1; ex_e] [[0]; [0]] /\
+  exists r, einsum_run bool_ops Bool.eqb false 10 [ex_c1; ex_e] [[0]; [0]] [] = Ok r /\ er_failed r = true /\
+            denote bool (er_raw r) [] = false.
+Proof.
+  split.
+  - split.
+    + intros k. unfold ex_G3. destruct k as [[|[]|]|[[]|[]|]|]; repeat constructor.
+    + intros k Hk. unfold ex_G3. destruct k as [[|[]|]|[[]|[]|]|]; try reflexivity; lia.
+    + constructor; [|constructor; [|constructor]].
+      * split; [split; [repeat constructor; simpl; tauto|intros k n; simpl; tauto]|]. split.
+        -- constructor; [|constructor]. apply (ty_sum ex_G3 0 (Phys 1 2) 3 [] (TAtom 2) [TAtom 3]); [reflexivity|reflexivity|].
+           apply (ty_phys ex_G3 1 2); [discriminate|reflexivity].
+        -- apply st_ok_nonzero; [reflexivity|]. intros [|[|i]]; simpl; lia.
+      * split; [split; [repeat constructor; simpl; tauto|intros k n; simpl; tauto]|]. split.
+        -- constructor; [|constructor]. apply (ty_sum ex_G3 2 (Phys 3 3) 0 [TAtom 2] (TAtom 3) []); [reflexivity|reflexivity|].
+           apply (ty_phys ex_G3 3 3); [discriminate|reflexivity].
+        -- apply st_ok_nonzero; [reflexivity|]. intros [|[|i]]; simpl; lia.
+  - vm_compute. eexists. repeat split; reflexivity.
+Qed.
